@@ -1407,7 +1407,10 @@ pub fn run(a: &Args) {
         .map(|c| c.group("sys_cases", "bool * list op * list (out * list ev)"))
         .collect();
     let mut ctx = Ctx::default();
-    key_sweep(if a.thorough() { 40000 } else { 4000 }, &mut ctx);
+    let only: Option<usize> = a.get("only").and_then(|x| x.parse().ok());
+    if only.is_none() {
+        key_sweep(if a.thorough() { 40000 } else { 4000 }, &mut ctx);
+    }
     let mut op_hist: std::collections::BTreeMap<String, u64> = Default::default();
     let mut fe_hist: std::collections::BTreeMap<String, u64> = Default::default();
     let mut len_hist: std::collections::BTreeMap<usize, u64> = Default::default();
@@ -1462,7 +1465,37 @@ pub fn run(a: &Args) {
         let maxlen = if rng.chance(1, 5) { 60 } else { 25 };
         let len = 1 + rng.below(maxlen) as usize;
         let (kind, ops) = if i < n_corpus { corpus[i].clone() } else { (kind, gen_ops(&mut rng, len, cfg)) };
+        // shrinking: `--only I --keep 1011..` re-runs just case I with a subset of its operations
+        // (every case is still generated, so that the random stream is the one of the full run)
+        let (ops, only_this) = match only {
+            Some(k) if k == i => {
+                let mask: Vec<bool> = a.get("keep").map(|m| m.chars().map(|c| c == '1').collect()).unwrap_or_default();
+                let kept: Vec<Op> = ops.iter().enumerate().filter(|(j, _)| mask.get(*j).copied().unwrap_or(true)).map(|(_, o)| o.clone()).collect();
+                (kept, true)
+            }
+            Some(_) => continue,
+            None => (ops, false),
+        };
         let res = run_case(kind, &ops, &mut ctx);
+        if only_this {
+            let mut c = Cases::new();
+            let g = c.group("sys_cases", "bool * list op * list (out * list ev)");
+            let coq = format!(
+                "({}, {}, {})",
+                cbool(kind.hot()),
+                clist(&res.iter().map(|(o, _)| o.clone()).collect::<Vec<_>>()),
+                clist(&res.iter().map(|(_, o)| o.clone()).collect::<Vec<_>>())
+            );
+            let json = format!(
+                "{{\"frontend\": \"{kind:?}\", \"ops\": [{}], \"observed\": [{}]}}",
+                ops.iter().map(|o| o.json()).collect::<Vec<_>>().join(", "),
+                res.iter().map(|(_, o)| jstr(o)).collect::<Vec<_>>().join(", ")
+            );
+            c.push(g, coq, json);
+            c.write(&a.out, "shrink", "From AM Require Import Ref.Load Ref.Sys Corr.SysCheck.\nFrom Coq Require Import ZArith.", &[("sys_cases", "sys_code")]);
+            std::fs::write(format!("{}/shrink.n_ops", a.out), format!("{}", ops.len())).unwrap();
+            return;
+        }
         *fe_hist.entry(format!("{kind:?}")).or_insert(0) += 1;
         *len_hist.entry(ops.len() / 10 * 10).or_insert(0) += 1;
         for (op, o) in &res {
